@@ -2,14 +2,14 @@
 import copy
 import json
 
-from .. import tdgen
+from .. import tdcli, tdgen
 from ..gen import both, lib_case, rand_bytes, VOCAB_TYPES, VOCAB_TYPE_WORDS
 from ..ref import eip712, td
 from ..run.core import V
 
 ID = "C09"
 LEVEL = "exploration"
-NEEDS = {"lib": ["dev", "release"]}
+NEEDS = {"lib": ["dev", "release"], "cli": ["dev", "release"]}
 RULE = ("typeddata.hash(json) events: a valid random document with exactly one injected fault at a random position (top level, nested "
         "struct, array element); complete sweep of every width N in 8..256 x signedness x boundary values (-2^(N-1)-1, -2^(N-1), "
         "2^(N-1)-1, 2^(N-1), 2^N-1, 2^N, -1, -(2^N-1)) x every spelling that can express them, at three nesting positions; bytesN "
@@ -23,7 +23,8 @@ REQUIRED = (["boundary-in-range-accepted", "reject-uint-above", "reject-uint-neg
              "reject-undefined-type-via-empty-array", "reject-wrong-kind", "fault-depth-0", "fault-depth-1", "fault-depth>=2",
              "fault-in-array-element", "fault-in-domain"]
             + ["sweep-uint%d" % n for n in (8, 128, 256)] + ["sweep-int%d" % n for n in (8, 128, 256)]
-            + ["spelling-json-int", "spelling-json-float", "spelling-dec-string", "spelling-hex-string", "spelling-neg-hex-string", "spelling-json-bigint", "spelling-json-bigfloat"])
+            + ["spelling-json-int", "spelling-json-float", "spelling-dec-string", "spelling-hex-string", "spelling-neg-hex-string", "spelling-json-bigint", "spelling-json-bigfloat"]
+            + ["cli-reject-all-commands", "cli-accept-hashes-equal-and-signature-recovers"])
 
 
 def judge(case, obs):
@@ -56,7 +57,7 @@ def judge(case, obs):
     return v
 
 
-JUDGES = {"doc": judge}
+JUDGES = {"doc": judge, "cli-doc": tdcli.make_td_judge(ID)}
 
 
 def shards(tier, seed):
@@ -65,6 +66,7 @@ def shards(tier, seed):
     for i, n in enumerate(range(8, 257, 8)):
         out.append({"name": "sweep-%d" % n, "n": n, "exhaustive": "uint%d/int%d x 8 boundary values x all spellings x 3 positions" % (n, n)})
     out += [{"name": "inject-%d" % i, "count": 25000 if T else 400} for i in range(16)]
+    out += [{"name": "cli-surface-%d" % i, "part": i} for i in range(8)]
     return out
 
 
@@ -101,6 +103,13 @@ def _positions(ts, tok):
 
 def gen(shard, rng, tier):
     name = shard["name"]
+    if name.startswith("cli-surface"):
+        # a sample of the same documents through every command that reads a typed-data document (see tdcli)
+        def lib_cases():
+            for sub in [{"name": "sweep-%d" % n, "n": n} for n in (8, 64, 256)] + [{"name": "inject-0", "count": 4000 if tier == "thorough" else 500}]:
+                yield from gen(sub, rng, tier)
+        yield from tdcli.from_lib_cases(lib_cases(), every=3, limit=3000 if tier == "thorough" else 360, part=shard["part"], parts=8)
+        return
     if name.startswith("sweep-"):
         n = shard["n"]
         for signed in (False, True):
